@@ -143,6 +143,10 @@ func (h *ProposalHandler) PrepareProposalHandler(ctx sdk.Context, req *abci.Requ
 
 func (h *ProposalHandler) ProcessProposalHandler(ctx sdk.Context, req *abci.RequestProcessProposal) (*abci.ResponseProcessProposal, error) {
 	if req.Height > ctx.ConsensusParams().Abci.VoteExtensionsEnableHeight {
+		if len(req.Txs) == 0 {
+			h.logger.Error("ProcessProposalHandler: rejecting proposal, missing injected vote extension tx")
+			return &abci.ResponseProcessProposal{Status: abci.ResponseProcessProposal_REJECT}, nil
+		}
 		var injectedVoteExtTx VoteExtTx
 		if err := json.Unmarshal(req.Txs[0], &injectedVoteExtTx); err != nil {
 			h.logger.Error("ProcessProposalHandler: failed to decode injected vote extension tx", "err", err)
@@ -279,6 +283,12 @@ func (h *ProposalHandler) CheckInitialSignaturesFromLastCommit(ctx sdk.Context, 
 			h.logger.Error("CheckInitialSignaturesFromLastCommit: failed to unmarshal vote extension", "error", err)
 			// check for initial sig
 		} else if len(voteExt.InitialSignature.SignatureA) > 0 {
+			// a vote extension is only bounded in size from above; address recovery slices
+			// the first 64 bytes of each signature and panics on anything shorter
+			if len(voteExt.InitialSignature.SignatureA) < 64 || len(voteExt.InitialSignature.SignatureB) < 64 {
+				h.logger.Error("CheckInitialSignaturesFromLastCommit: initial signature too short", "validator", vote.Validator.Address)
+				continue
+			}
 			// verify initial sig
 			evmAddress, err := h.bridgeKeeper.EVMAddressFromSignatures(ctx, voteExt.InitialSignature.SignatureA, voteExt.InitialSignature.SignatureB)
 			if err != nil {
